@@ -165,6 +165,13 @@ Theorem C05_set_node_attributes_scalar : forall v name s, Inv s ->
 Proof. exact set_node_attrs_scalar_effect. Qed.
 Print Assumptions C05_set_node_attributes_scalar.
 
+Theorem C05_set_edge_attributes_scalar : forall v name s, Inv s ->
+  let t := st_of (set_edge_attrs_scalar v name s) in
+  (forall e, In e (ekeys s) -> get e (h_eattr t) = Some (aset name v (geta e (h_eattr s)))) /\
+  h_node t = h_node s /\ h_edge t = h_edge s /\ h_nattr t = h_nattr s /\ h_uid t = h_uid s.
+Proof. exact set_edge_attrs_scalar_effect. Qed.
+Print Assumptions C05_set_edge_attributes_scalar.
+
 (* ----- directed hypergraphs ----- *)
 (* add_edge((tail, head)) with an automatic id stores exactly the given tail and head under the next id and
    leaves the tail and head of every other edge alone *)
